@@ -145,6 +145,10 @@ class Interp:
         cur_fr, cur_local, rest = fr, local, list(projs)
         # navigate to container
         v = cur_fr.locals.get(cur_local, UNKNOWN)
+        if v == UNKNOWN and rest and isinstance(rest[0], dict) and "f" in rest[0] and rest[0].get("of") not in (None, "tuple", "?"):
+            of = rest[0]["of"]
+            v = ("adt", of, of.rsplit("::", 1)[-1], [])
+            cur_fr.locals[cur_local] = v
         path = []
         for i, e in enumerate(rest):
             if e == "*":
@@ -172,6 +176,11 @@ class Interp:
                     cont[e["f"]] = val
                     return
                 v = cont[e["f"]]
+                if v == UNKNOWN and isinstance(rest[i + 1], dict) and "f" in rest[i + 1] and rest[i + 1].get("of") not in (None, "tuple", "?"):
+                    # a write into a field of a not yet initialised struct (MaybeUninit<..> behind `vec![..]`, say): materialise the path
+                    of = rest[i + 1]["of"]
+                    v = ("adt", of, of.rsplit("::", 1)[-1], [])
+                    cont[e["f"]] = v
             elif isinstance(e, dict) and ("i" in e or ("ci" in e and not e.get("fe"))):
                 idx = cur_fr.locals.get(e["i"], UNKNOWN) if "i" in e else e["ci"]
                 if isinstance(v, tuple) and v[0] == "array" and isinstance(idx, int) and idx < len(v[1]):
@@ -263,6 +272,13 @@ class Interp:
     def binop(self, op, a, b, ty):
         base = op.replace("WithOverflow", "").replace("Unchecked", "")
         cmp_ops = {"Eq", "Ne", "Lt", "Le", "Gt", "Ge", "Cmp"}
+        # the address of a live allocation used as an integer (debug builds insert alignment / null checks before raw pointer
+        # dereferences): aligned and non-null
+        if isinstance(a, tuple) and a[0] == "ref" and isinstance(b, int):
+            if base == "BitAnd":
+                return 0
+            if base in ("Eq", "Ne") and b == 0:
+                return int(base == "Ne")
         if isinstance(a, int) and isinstance(b, int):
             bits = INT_BITS.get(ty, 64)
             signed = ty.startswith("i")
